@@ -27,11 +27,33 @@ inductive Shorthand : Str → Str → Prop
 
 /-- `_abbreviate` computes exactly the grammar's shorthands. -/
 theorem abbreviate_spec (key ns : Str) : key ∈ abbreviate ns ↔ Shorthand key ns := by
-  sorry
+  rw [mem_abbreviate_iff]
+  constructor
+  · rintro ⟨p, hp, r, rfl, hl⟩
+    rcases (mem_abbrevParts_iff r key).mp hl with
+      ⟨name, ver, rest, hn, hv, hr, rfl, rfl | rfl⟩ | ⟨ver, rest, hv, hr, rfl, rfl | rfl⟩
+    · exact .capName p name ver rest hp hn hv hr
+    · exact .capNameVer p name ver rest hp hn hv hr
+    · exact .base p ver rest hp hv hr
+    · exact .baseVer p ver rest hp hv hr
+  · intro h
+    cases h with
+    | capName p name ver rest hp hn hv hr =>
+      exact ⟨p, hp, _, rfl, (mem_abbrevParts_iff _ _).mpr
+        (Or.inl ⟨name, ver, rest, hn, hv, hr, rfl, Or.inl rfl⟩)⟩
+    | capNameVer p name ver rest hp hn hv hr =>
+      exact ⟨p, hp, _, rfl, (mem_abbrevParts_iff _ _).mpr
+        (Or.inl ⟨name, ver, rest, hn, hv, hr, rfl, Or.inr rfl⟩)⟩
+    | base p ver rest hp hv hr =>
+      exact ⟨p, hp, _, rfl, (mem_abbrevParts_iff _ _).mpr
+        (Or.inr ⟨ver, rest, hv, hr, rfl, Or.inl rfl⟩)⟩
+    | baseVer p ver rest hp hv hr =>
+      exact ⟨p, hp, _, rfl, (mem_abbrevParts_iff _ _).mpr
+        (Or.inr ⟨ver, rest, hv, hr, rfl, Or.inr rfl⟩)⟩
 
 /-- `from_uri` strips the parameters at the first `?`. -/
-theorem fromUri_ns (uri : Str) : (fromUri uri).ns = nsPart uri := by
-  sorry
+theorem fromUri_ns (uri : Str) : (fromUri uri).ns = nsPart uri :=
+  fromUri_ns_takeWhile uri
 
 /-- A full URI that was advertised is found, and the result is that URI's capability. -/
 theorem full_uri (uris : List Str) (u : Str) (h : u ∈ uris) :
@@ -42,12 +64,24 @@ theorem full_uri (uris : List Str) (u : Str) (h : u ∈ uris) :
     some advertised URI has it as one of its two grammar shorthands. -/
 theorem shorthand_iff (uris : List Str) (key : Str) (h : key ∉ uris) :
     contains (mk uris) key = true ↔ ∃ u ∈ uris, Shorthand key (nsPart u) := by
-  sorry
+  constructor
+  · intro hc
+    unfold contains at hc
+    split at hc
+    · rename_i c hget
+      obtain ⟨u, hu, -, hk⟩ := getItem_mk_shorthand uris key c h hget
+      exact ⟨u, hu, by rw [← fromUri_ns, ← abbreviate_spec]; exact hk⟩
+    · cases hc
+  · rintro ⟨u, hu, hs⟩
+    rw [← fromUri_ns, ← abbreviate_spec] at hs
+    obtain ⟨c, hc⟩ := getItem_mk_of_abbrev uris key u hu hs
+    simp [contains, hc]
 
 /-- …and what a successful shorthand lookup returns is the capability of such a URI. -/
 theorem shorthand_result (uris : List Str) (key : Str) (c : Cap) (h : key ∉ uris)
     (hc : getItem (mk uris) key = .ok c) : ∃ u ∈ uris, c = fromUri u ∧ Shorthand key (nsPart u) := by
-  sorry
+  obtain ⟨u, hu, hcu, hk⟩ := getItem_mk_shorthand uris key c h hc
+  exact ⟨u, hu, hcu, by rw [← fromUri_ns, ← abbreviate_spec]; exact hk⟩
 
 /-- Totality: lookup is `ok` or the documented `KeyError`, for every URI list and key
     (the model has no other outcome because the code's indexing is guarded by length tests;
@@ -74,7 +108,11 @@ def wellFormedPairs (s : Str) : List (Str × Str) :=
 /-- Parameters: exactly the well-formed pairs are exposed; a repeated key has its last value. -/
 theorem params_spec (s : Str) (k : Str) :
     dictGet (parseParams s) k = ((wellFormedPairs s).reverse.find? (fun p => p.1 = k)).map Prod.snd := by
-  sorry
+  unfold parseParams wellFormedPairs
+  rw [dictGet_foldl_pairs (fun piece => match splitOn '=' piece with
+      | [k, v] => some (k, v)
+      | _ => none) _ (fun d piece => by split <;> simp_all)]
+  simp [dictGet]
 
 /-- Iteration yields exactly the advertised URIs. -/
 theorem keys_spec (uris : List Str) (u : Str) : u ∈ keys (mk uris) ↔ u ∈ uris :=
